@@ -6,7 +6,7 @@ CONSTANTS
   MarkMod = 16
   Prod = {1, 2}
   Cons = {3, 4}
-  Prog <- Prog_b4
+  Prog <- Prog_b
   StartSet = {0, 14}
   Bug = "none"
 INVARIANTS ExactlyOnce FifoLinearizable PerProducerOrder CapacityBound NoTornSlot
